@@ -77,7 +77,9 @@ EvEval ==
      /\ ResIn(out.pats, E.res, FALSE)                       \* error variants by class (DESIGN.md section 4.3)
      /\ (b.class = "WF" /\ ~b.open /\ "tree" \in DOMAIN E => SameTree(b.tree, E.tree))
      /\ IF out.det
-        THEN /\ (E.mode # "fresh" => SameVars(out.st.ctx, E.post) /\ SameLog(out.st.log, E.log))
+        THEN /\ (E.mode # "fresh" => SameVars(out.st.ctx, E.post))
+             \* calls issued from several threads share one call log: it cannot be attributed to a single call
+             /\ (E.mode # "fresh" /\ "nolog" \notin DOMAIN E => SameLog(out.st.log, E.log))
              /\ ctxs' = [ctxs EXCEPT ![E.slot] = out.st.ctx] /\ log' = <<>>
         \* the documentation does not determine the state after this call: continue from the recorded one
         ELSE /\ ctxs' = [ctxs EXCEPT ![E.slot] = [@ EXCEPT !.vars = VarsOfSeq(E.post.vars), !.nb = E.post.nb]]
